@@ -163,6 +163,82 @@ theorem run_readEntries (g : Growth) (hg : g.OK) (es : T) (acc : T) (r : Bytes)
       · subst e1; exact hinv'
       · exact hinvs e e1
 
+/-- the columns put one after the other (what the loop of `readTable` does to the receiver) -/
+def putAll (acc : T) (es : T) : T := es.foldl (fun t e => put t e.1 e.2) acc
+
+theorem putAll_fresh (acc es : T)
+    (hd : es.Pairwise (fun a b => (a.1 == b.1) = false))
+    (hf : ∀ a ∈ acc, ∀ e ∈ es, (a.1 == e.1) = false) : putAll acc es = acc ++ es := by
+  induction es generalizing acc with
+  | nil => simp [putAll]
+  | cons e rest ih =>
+    rw [List.pairwise_cons] at hd
+    have h1 : put acc e.1 e.2 = acc ++ [e] := put_fresh acc e.1 e.2 (fun a ha => hf a ha e (by simp))
+    have : putAll acc (e :: rest) = putAll (acc ++ [e]) rest := by
+      simp only [putAll, List.foldl_cons, h1]
+    rw [this, ih (acc ++ [e]) hd.2 (by
+      intro a ha x hx
+      rcases List.mem_append.mp ha with ha | ha
+      · exact hf a ha x (by simp [hx])
+      · simp only [List.mem_singleton] at ha; subst ha; exact hd.1 x hx)]
+    simp
+
+/-- **readTable into ANY receiver, ANY keys**: the entries of a written table are decoded (lists
+    equal, types through `create`) and PUT into the receiver one after the other — a key that is
+    already there (in the receiver, or earlier in the same table) is replaced in place, new keys go
+    last.  No distinctness hypothesis. -/
+theorem run_readEntries_gen (g : Growth) (hg : g.OK) (es : T) (acc : T) (r : Bytes)
+    (hw : ∀ e ∈ es, WFEntry e) :
+    ∃ es', P.run (readEntries g es.length acc) (writeEntries es ++ r) = some (putAll acc es', r) ∧
+      absT es' = absT es ∧ InvT es' := by
+  induction es generalizing acc with
+  | nil => exact ⟨[], by simp [readEntries, writeEntries, putAll], rfl, fun e he => by cases he⟩
+  | cons e rest ih =>
+    obtain ⟨k, c⟩ := e
+    obtain ⟨hty, hinv, hsz, hvals, hkl⟩ := hw (k, c) (by simp)
+    simp only at hty hinv hsz hvals hkl
+    have hct : (create c.ty).ty = c.ty := create_of_code c.ty hty
+    have hcl : (create c.ty).l = TL.mk' (zeroOfTy c.ty) 0 := by
+      simp only [create]
+      split
+      · rfl
+      · have : c.ty = 5 := by omega
+        simp [this]
+    obtain ⟨l', hread, habs, hinv'⟩ := run_read_write g hg (codecV c.ty) (zeroOfTy c.ty) c.l
+      (TL.mk' (zeroOfTy c.ty) 0) (writeEntries rest ++ r) hinv (TL.inv_mk' _ _) hsz hvals
+      (by simp [TL.mk', TL.BOUND]; omega)
+    obtain ⟨es', hrest, habs', hinvs⟩ := ih (put acc k { ty := c.ty, l := l' })
+      (fun e he => hw e (by simp [he]))
+    refine ⟨(k, { ty := c.ty, l := l' }) :: es', ?_, ?_, ?_⟩
+    · simp only [List.length_cons, readEntries, writeEntries, writeEntry, List.append_assoc]
+      rw [P.run_bind_some _ _ _ _ _ (run_decBlob k _ hkl)]
+      have hb : c.ty < 256 ^ 1 := by omega
+      have hbyte : ([c.ty] : Bytes) = beN 1 c.ty := by
+        simp [beN, Nat.mod_eq_of_lt (show c.ty < 256 by omega)]
+      rw [List.singleton_append, ← List.singleton_append, hbyte,
+        P.run_bind_some _ _ _ _ _ (run_rdU 1 c.ty _ hb)]
+      simp only [hct, hcl]
+      rw [P.run_bind_some _ _ _ _ _ hread]
+      simpa [putAll] using hrest
+    · simp only [absT, List.map_cons] at habs' ⊢
+      rw [habs', habs]; simp
+    · intro e he
+      rcases List.mem_cons.mp he with e1 | e1
+      · subst e1; exact hinv'
+      · exact hinvs e e1
+
+/-- `readTable` of a written table into any receiver, in general -/
+theorem run_readTable_gen (g : Growth) (hg : g.OK) (t acc : T) (r : Bytes)
+    (hn : t.length ≤ 32767) (hw : ∀ e ∈ t, WFEntry e) :
+    ∃ es', P.run (readTable g acc) (writeTable t ++ r) = some (putAll acc es', r) ∧
+      absT es' = absT t ∧ InvT es' := by
+  obtain ⟨es', h1, h2, h3⟩ := run_readEntries_gen g hg t acc r hw
+  refine ⟨es', ?_, h2, h3⟩
+  unfold readTable writeTable
+  rw [List.append_assoc, P.run_bind_some _ _ _ _ _ (run_rdI 2 (t.length : Int) _
+      ((inRange_2 _).mpr (by omega)))]
+  simpa using h1
+
 /-- **table_wire.**  `readTable` of what `writeTable` produced, into an empty table, gives a table
     with the same keys in the same order, the same list types (through `create`) and equal lists,
     and leaves the following bytes untouched — for at most 32767 columns with distinct keys. -/
